@@ -31,6 +31,7 @@ VARIANTS = {
     "tsan": ["-fsanitize=thread"],
     "sched": [],          # threadpool.c under the deterministic scheduler
     "schedasan": ["-fsanitize=address,undefined", "-fno-sanitize=alignment", "-fno-sanitize-recover=undefined"],   # the same, with ASan
+    "plain0": ["-O0"],    # no optimisation: every load the source asks for is made as wide as written
     "tools": [],          # no seams, no hook: the command line tools as shipped
 }
 LIBS = ["-lz", "-lsnappy", "-llz4", "-lzstd", "-lpthread", "-ldl"]
